@@ -35,7 +35,11 @@ TreeCmds == {"validate", "validate-quiet", "validate-json", "validate-sarif", "l
 
 \* `parse` takes exactly one input; `format --check` on inline SQL is not a check-only mode the
 \* property speaks about (the command prints the formatted text), so it is not constrained here.
-Cases == {[cmd |-> c, src |-> "files", ins |-> f] : c \in Cmds \ {"parse"}, f \in FileSets}
+\* how `parse` presents its result: the global output format and its own display flags.  Presentation is not part of
+\* the verdict: whatever is printed, and in whatever format a failure is reported, the exit status is the library's
+\* (--tokens is not a presentation: it makes the command tokenize only, and the tokenizer accepts what the parser rejects)
+Presentations == {"json", "yaml", "table", "tree", "ast", "treeview", "verbose"}
+Plain == {[cmd |-> c, src |-> "files", ins |-> f] : c \in Cmds \ {"parse"}, f \in FileSets}
          \cup {[cmd |-> "parse", src |-> "files", ins |-> <<a>>] : a \in Classes}
          \cup {[cmd |-> c, src |-> s, ins |-> <<a>>] :
                   c \in {"validate", "format", "lint", "lint-failwarn", "parse"},
@@ -45,6 +49,8 @@ Cases == {[cmd |-> c, src |-> "files", ins |-> f] : c \in Cmds \ {"parse"}, f \i
          \cup {[cmd |-> c, src |-> s, ins |-> f] : c \in TreeCmds, s \in TreeSources \ {"glob"}, f \in FileSets}
          \cup {[cmd |-> c, src |-> "glob", ins |-> f] :
                   c \in {"validate", "validate-quiet", "validate-json", "validate-sarif"}, f \in FileSets}
+Cases == {[cmd |-> c.cmd, src |-> c.src, ins |-> c.ins, pres |-> ""] : c \in Plain}
+         \cup {[cmd |-> "parse", src |-> s, ins |-> <<a>>, pres |-> p] : s \in Sources, a \in Classes, p \in Presentations}
 
 VARIABLES case, verdict, done
 vars == <<case, verdict, done>>
@@ -97,14 +103,16 @@ OnlyOnSuccess == \A i \in verdict.may : Accepted(case.ins[i])
 \* --check passes exactly on the files that -i would leave alone
 PrintWriteCheckConsistent ==
     \A f \in FileSets :
-        LET chk == Verdict([cmd |-> "format-check", src |-> "files", ins |-> f])
-            inp == Verdict([cmd |-> "format-inplace", src |-> "files", ins |-> f])
+        LET chk == Verdict([cmd |-> "format-check", src |-> "files", ins |-> f, pres |-> ""])
+            inp == Verdict([cmd |-> "format-inplace", src |-> "files", ins |-> f, pres |-> ""])
         IN (chk.exit = 0) <=> (inp.exit = 0 /\ inp.must = {})
 \* how the inputs reach the command does not matter: a directory tree or a glob gives the verdict of the same files
 \* named one by one
 SourceIndependent ==
     (case.src \in TreeSources) =>
-        LET asFiles == Verdict([cmd |-> case.cmd, src |-> "files", ins |-> case.ins])
+        LET asFiles == Verdict([cmd |-> case.cmd, src |-> "files", ins |-> case.ins, pres |-> ""])
         IN verdict.exit = asFiles.exit /\ verdict.reported = asFiles.reported
+PresentationIndependent ==
+    verdict.exit = Verdict([cmd |-> case.cmd, src |-> case.src, ins |-> case.ins, pres |-> ""]).exit
 ReportNamesExactlyFailures == verdict.reported \subseteq Idx(case.ins, Rejected)
 =============================================================================
